@@ -25,7 +25,7 @@ func (c13) Level() string               { return "exploration" }
 func (c13) ChildParallel() int          { return 1 }
 func (c13) Exhaustive(tier string) bool { return false }
 func (c13) Rule() string {
-	return "Session rig: a real Server (mux handlers drain) and a real ClientChannel (one consumer goroutine per inbound stream drains) or the high-level Client, over {in-process, TCP, TCP upgraded to TLS, WebSocket, secure WebSocket}. Scenario = initiator {ClientChannel.FinishSession, ServerChannel.FinishSession, ServerChannel.FailSession, Client.Close, Server.Close} x transport x buffer {0,1,32} x traffic {idle, client->server, server->client, both, unsolicited responses to a non-consuming side} x moment (PRNG delay, after the k-th envelope, at hook points channel.recv.got / channel.send.checked / ws.*.spawn). Scenarios run one at a time inside a child so that the goroutine/socket census is attributable. " +
+	return "Session rig: a real Server (mux handlers drain) and a real ClientChannel (one consumer goroutine per inbound stream drains) or the high-level Client, over {in-process, TCP, TCP upgraded to TLS, WebSocket, secure WebSocket}. Scenario = initiator {ClientChannel.FinishSession, ServerChannel.FinishSession, ServerChannel.FailSession, Client.Close, Server.Close} x transport x buffer {0,1,32} x traffic {idle, client->server, server->client, both, unsolicited responses to a non-consuming side, backlog = busy server handler + a proxy with a small window that briefly stops forwarding the server's bytes, so that the terminal envelope is still queued behind unsent data when the server closes a connection with unread inbound data} x moment (PRNG delay, after the k-th envelope, at hook points channel.recv.got / channel.send.checked / ws.*.spawn). Scenarios run one at a time inside a child so that the goroutine/socket census is attributable. " +
 		"Monitor (bounded progress 15 s, census settle 12 s, guarded by a load canary): the observing side reaches the terminal state announced by the initiator; both sides' inbound streams and RcvDone are closed and every stream consumer returns; the Finished callback fires; the initiator's transport is no longer connected when its terminating call has returned; after the observer has closed its channel no lime-owned goroutine or socket is left above the pre-session census. Non-trivial = traffic in flight or buffer <=1; distinct = scenario cell."
 }
 func (c13) Assumptions() []string {
